@@ -247,8 +247,11 @@ for i in ids:
       "evidence_file": "evidence/%s.json" % i,
       "replay_cmd_template": "./check %s --replay {path}" % i,
       "engine": "pyvc",
-      "level_claimed": {"category": "exploration" if i == "C19" else "proof", "text": c["text"], "design_ref": c["ref"]},
-      "level_note": c["note"],
+      "level_claimed": {"category": {"C19": "exploration", "C06": "other", "C07": "other", "C11": "other"}.get(i, "proof"),
+                        "text": c["text"], "design_ref": c["ref"]},
+      "level_note": c["note"] + (" Evidence level 'other': every unit of this property is a bounded symbolic unit (values symbolic, "
+                                  "shape fixed); its SMT-discharged obligations are reported as bounded_shape_obligations, not as "
+                                  "proof-level obligations." if i in ("C06", "C07", "C11") else ""),
       "technique": ("bounded stand-in only (native enumeration of the real functions against an independent oracle, bounds stated): no "
                     "contract within reach decides this property - not counted as proved") if i == "C19" else
                    "contract-based deductive verification: VCs generated from the real function ASTs (pyvc), discharged by z3/cvc5; bounded stand-ins where stated",
